@@ -722,7 +722,7 @@ func init() {
 	mc.Register(&mc.Prop{
 		ID:    "C05",
 		Level: "exploration",
-		Rule: cliStreamRule[1:] + " " + "bounded-exhaustive enumeration: (i) all 42^3 codons over IUPAC letters in both cases plus - . * ? X x Z 1 space 0xE9, x 3 genetic codes, through Sequence.Translate and Alignment.Translate, and every codon under the three codes in all 6 orders inside one process (a result must not depend on which code an earlier call used); " +
+		Rule: cliStreamRule[1:] + " Command line: goalign translate --phase 0,1,2,-1 x --genetic-code (not given, standard, mitov, mitoi) x aligned / --unaligned / --ref-seq on 4 sets holding the codons on which the three tables differ: the output must be what Translate / TranslateByReference give for that frame and table. " + "bounded-exhaustive enumeration: (i) all 42^3 codons over IUPAC letters in both cases plus - . * ? X x Z 1 space 0xE9, x 3 genetic codes, through Sequence.Translate and Alignment.Translate, and every codon under the three codes in all 6 orders inside one process (a result must not depend on which code an earlier call used); " +
 			"(ii) all sequences of length 0..6 (quick) / 0..8 (thorough) over {A,T,G,R,-} x frames {0,1,2,-1} x 3 codes through Sequence/SeqBag/Alignment.Translate; " +
 			"(iii) CodonAlign for all nt rows of length 3..6/8 over ACGT with every placement of <=2 gap columns; (iv) TranslateByReference for all 2-row alignments L<=6/7 over {A,C,G,-} x frames x each reference, and for references whose codon is split by a run of 3 or 4 gaps (after its 1st or 2nd base, with and without a following codon) against every other row over {A,C,-}. " +
 			"A case is non-trivial when the call succeeded and its full result was compared with the NCBI-table oracle (error-path and skipped cases are not counted); distinct = distinct (entry point, input, frame, code).",
@@ -731,9 +731,11 @@ func init() {
 			"sequences containing a symbol goalign's documented alphabet detection does not accept as nucleotide (Z, digit, blank, non-ASCII) may be rejected with an error instead of translated",
 			"TranslateByReference with gaps is only constrained in frame 0 (as stated); in frames 1,2 it must merely not panic",
 		},
-		Tasks: func(tier string) []mc.Task { return append(c05Tasks(tier), cliStreamTasks("C05")...) },
+		Tasks: func(tier string) []mc.Task {
+			return append(append(c05Tasks(tier), cliStreamTasks("C05")...), c05CLITasks()...)
+		},
 		Replay: func(c *mc.Ctx, payload json.RawMessage) {
-			if cliStreamReplay(c, payload) {
+			if cliStreamReplay(c, payload) || c05CLIReplay(c, payload) {
 				return
 			}
 			var cs c05Case
